@@ -179,6 +179,7 @@ class UploadPipeline(Scenario):
             "tape": [] if rng.random() < 0.4 or big else [rng.choice([0, 0, 1, 2, 7, 50]) for _ in range(60)],
             "field_split": rng.random() < 0.3,
             # how the application fills the builder: constructor data, in-place adds, or assigning form / files in either order
+            "data_first": rng.choice([None, None, None, "bytes", "text"]),
             "file_form": rng.choice(["storage", "storage", "plain"]),
             "builder_form": rng.choice(["ctor", "ctor", "inplace", "assign_form_first", "assign_files_first", "ctor_files_then_assign_form", "ctor_fields_then_assign_files"]),
         }
@@ -422,6 +423,14 @@ class UploadPipeline(Scenario):
                     env["CONTENT_TYPE"] = ctype
                     env["CONTENT_LENGTH"] = str(len(body))
                     req = Request(env)
+                    first = case.get("data_first")
+                    if first in ("bytes", "text"):
+                        # the application looks at the raw body before the form (logging, signature checks): the body is
+                        # cached and the form is parsed from the cache
+                        raw = req.get_data(as_text=first == "text")
+                        if raw != (body.decode(errors="replace") if first == "text" else body):
+                            out.violate(f"{pre}/raw-body-differs/enc={enc}/dec={dec}", f"get_data returned {len(raw)} items, the body has {len(body)} bytes")
+                        out.probe("raw_body_read_before_form")
                     form, fls = req.form, req.files
                 got_form = list(form.items(multi=True))
                 got_files = []
